@@ -279,6 +279,24 @@ def check_error_paths(run, case):
                           observed=[b.decode('utf-8', 'replace') for b in bad[:3]], mech='stdout-diagnostic-on-error-path'); 
         else:
             run.case(h(['err-save', case['spec']['base']]))
+        # 1b. the save file of the session is a symbolic link to a writable file elsewhere (session files kept on another disk): a legal place for it;
+        #     --limit N writes the first N guesses like any other session (seeded C09s: O_NOFOLLOW on the save file + a run that gives up when the first save fails)
+        import tempfile
+        tgt_dir = tempfile.mkdtemp(prefix='pcfgverif_c09lnk_')
+        try:
+            os.symlink(os.path.join(tgt_dir, 'elsewhere.sav'), os.path.join(s, sn + 'lnk.sav'))
+            total = len(U.guesses)
+            for n_ in sorted({1, max(1, total // 2), total + 3}):
+                out, err, rc, to = cli.run_cli('pcfg_guesser.py', ['-r', name, '-s', sn + 'lnk', '-n', str(n_)], stdin_mode='eof')
+                run.ev('cli_runs'); run.ev('symlinked_save_file_runs')
+                want = ('\n'.join(U.guesses[:n_]) + '\n').encode('utf-8') if U.guesses else b''
+                if not to and out != want:
+                    run.violation(f'session whose save file is a symbolic link to a writable file: --limit {n_} wrote {out.count(10)} lines, expected the first {min(n_, total)} guesses', case,
+                                  observed={'stderr_tail': err[-300:].decode('utf-8', 'replace')}); break
+            else:
+                run.case(h(['symlinked-save', case['spec']['base']]))
+        finally:
+            shutil.rmtree(tgt_dir, ignore_errors=True)
         # 2. invalid --limit values and an unknown ruleset: nothing on stdout
         for args, what in ((['-r', name, '-s', sn, '-n', '-5'], 'negative --limit'), (['-r', name + 'nope', '-s', sn], 'unknown ruleset')):
             out, err, rc, to = cli.run_cli('pcfg_guesser.py', args, stdin_mode='eof')
